@@ -287,6 +287,9 @@ func buildIntrinsics() map[string]Intrinsic {
 		st.locked = true
 		st.holder = g.id
 		g.p.lockEvent(g, key, 'L')
+		if r := g.p.race; r != nil {
+			r.acquire(g, key)
+		}
 		return Value{}, true
 	}
 	unlock := func(g *Goroutine, c *frame, fn *ssa.Function, a []Value) (Value, bool) {
@@ -297,6 +300,9 @@ func buildIntrinsics() map[string]Intrinsic {
 		}
 		st.locked = false
 		g.p.lockEvent(g, key, 'U')
+		if r := g.p.race; r != nil {
+			r.release(g, key)
+		}
 		if g.p.schedForks {
 			g.yield() // releasing a lock is a scheduling point when schedules are explored
 		}
@@ -323,6 +329,9 @@ func buildIntrinsics() map[string]Intrinsic {
 		g.block("rwmutex", func() bool { return !st.locked })
 		st.readers++
 		g.p.lockEvent(g, key, 'R')
+		if r := g.p.race; r != nil {
+			r.acquire(g, key)
+		}
 		return Value{}, true
 	}
 	m["(*sync.RWMutex).RUnlock"] = func(g *Goroutine, c *frame, fn *ssa.Function, a []Value) (Value, bool) {
@@ -333,6 +342,9 @@ func buildIntrinsics() map[string]Intrinsic {
 		}
 		st.readers--
 		g.p.lockEvent(g, key, 'r')
+		if r := g.p.race; r != nil {
+			r.release(g, key)
+		}
 		return Value{}, true
 	}
 	m["(*sync.WaitGroup).Add"] = func(g *Goroutine, c *frame, fn *ssa.Function, a []Value) (Value, bool) {
@@ -345,6 +357,9 @@ func buildIntrinsics() map[string]Intrinsic {
 	}
 	m["(*sync.WaitGroup).Done"] = func(g *Goroutine, c *frame, fn *ssa.Function, a []Value) (Value, bool) {
 		st := side(g.p, a[0].ptr(), func() *wgState { return &wgState{} })
+		if r := g.p.race; r != nil {
+			r.release(g, a[0].ptr())
+		}
 		st.n--
 		if st.n < 0 {
 			panic(&goPanic{val: g.w.prog.runtimeError("sync: negative WaitGroup counter"), site: c.stableSite(), msg: "sync: negative WaitGroup counter", runtime: true})
@@ -354,6 +369,9 @@ func buildIntrinsics() map[string]Intrinsic {
 	m["(*sync.WaitGroup).Wait"] = func(g *Goroutine, c *frame, fn *ssa.Function, a []Value) (Value, bool) {
 		st := side(g.p, a[0].ptr(), func() *wgState { return &wgState{} })
 		g.block("waitgroup", func() bool { return st.n == 0 })
+		if r := g.p.race; r != nil {
+			r.acquire(g, a[0].ptr())
+		}
 		return Value{}, true
 	}
 	m["(*sync.Once).Do"] = func(g *Goroutine, c *frame, fn *ssa.Function, a []Value) (Value, bool) {
@@ -383,9 +401,18 @@ func buildIntrinsics() map[string]Intrinsic {
 
 	// ---- sync/atomic
 	atomicLoad := func(g *Goroutine, c *frame, fn *ssa.Function, a []Value) (Value, bool) {
+		if r := g.p.race; r != nil {
+			r.acquire(g, a[0].ptr())
+			return copyVal(*a[0].ptr()), true
+		}
 		return c.load(a[0].ptr()), true
 	}
 	atomicStore := func(g *Goroutine, c *frame, fn *ssa.Function, a []Value) (Value, bool) {
+		if r := g.p.race; r != nil {
+			r.release(g, a[0].ptr())
+			*a[0].ptr() = copyVal(a[1])
+			return Value{}, true
+		}
 		c.store(a[0].ptr(), a[1])
 		return Value{}, true
 	}
@@ -837,6 +864,10 @@ func (g *Goroutine) sortSlice(c *frame, x Value, less Value, stable bool) {
 	}
 	for i := 1; i < n; i++ {
 		for j := i; j > 0 && lessFn(j, j-1); j-- {
+			if r := g.p.race; r != nil {
+				r.accessDeep(g, &s[j], true, "sort.Slice(swap)")
+				r.accessDeep(g, &s[j-1], true, "sort.Slice(swap)")
+			}
 			s[j], s[j-1] = s[j-1], s[j]
 		}
 	}
